@@ -72,7 +72,16 @@ var stepGen = rapid.Custom(func(t *rapid.T) Step {
 		return Step{K: "cmd", Line: rapid.SampledFrom([]string{"USER box", "PASS x", "APOP box 0123", "USER", "APOP box", "PASS", "user box", "pass y"}).Draw(t, "auth")}
 	case 5:
 		return Step{K: "cmd", Line: rapid.SampledFrom([]string{"CAPA", "NOOP", "STLS", "XYZZ", "", "  ", "noop", "NOOP  x", "STAT x", "QUIT now"}).Draw(t, "misc")}
-	case 6, 7:
+	case 6:
+		return Step{K: "cmd", Line: "STAT"}
+	case 7:
+		if rapid.IntRange(0, 2).Draw(t, "longline") == 0 {
+			// one line of more than 4096 (8192) bytes whose end would be a command of its own
+			n := rapid.SampledFrom([]int{4096, 4096, 8192, 5000}).Draw(t, "cutat")
+			head := rapid.SampledFrom([]string{"NOOP ", "XYZZ ", "STAT "}).Draw(t, "lhead")
+			tail := rapid.SampledFrom([]string{"QUIT", "DELE 1", "DELE 2", "RSET", "STAT"}).Draw(t, "ltail")
+			return Step{K: "cmd", Line: head + strings.Repeat("x", n-len(head)) + tail}
+		}
 		return Step{K: "cmd", Line: "STAT"}
 	case 8, 9:
 		return Step{K: "cmd", Line: strings.TrimSpace("LIST " + rapid.SampledFrom([]string{"", "", argGen.Draw(t, "a")}).Draw(t, "la"))}
